@@ -192,3 +192,26 @@ def in_span(v, basis_vecs):
     for r in red:
         v = min(v, v ^ r)
     return v == 0
+
+
+def long_chain_cases(rng, count, n=7):
+    """two-local families translated along n qubits (optionally with one extra random string): the inputs that drive the
+    reduction pipeline through its deepest states (long legs of five and more vertices)"""
+    names = sorted(FAMILIES)
+    rng.shuffle(names)
+    out = []
+    for name in names[:count]:
+        g = translates(FAMILIES[name], n)
+        if rng.random() < 0.3:
+            g = g + [uniform(rng, n)]
+        out.append(("two-local@%d:%s" % (n, name), n, g))
+    return out
+
+
+def dense_collections(rng, count, nmin, nmax, mmin=6, mmax=16):
+    """many random strings on few qubits: most are dependent, the work queue of the reduction is long"""
+    out = []
+    for _ in range(count):
+        n = rng.randint(nmin, nmax)
+        out.append(("dense", n, [uniform(rng, n) for _ in range(rng.randint(mmin, mmax))]))
+    return out
